@@ -4,6 +4,7 @@ import (
 	"strings"
 	"sync"
 	"testing"
+	"time"
 )
 
 // Two server instances on one database, one broker and one Redis: clients whose requests alternate
@@ -89,5 +90,85 @@ func TestTwoInstancesWithRedisLock(t *testing.T) {
 	}
 	if u := env.Mongo.UnknownCommands(); len(u) != 0 {
 		t.Fatalf("unknown mongo commands: %v", u)
+	}
+}
+
+// One server instance in this process and one in a child process, on one database, broker and Redis.
+func TestRemoteInstance(t *testing.T) {
+	env, err := New(Options{Redis: true, RemoteInstances: 1})
+	if err != nil {
+		t.Fatal(err)
+	}
+	defer env.Close()
+	if err := env.CreateCollection("dummy"); err != nil {
+		t.Fatal(err)
+	}
+	if err := env.CreateCollection("col"); err != nil { // handled by the child
+		t.Fatal(err)
+	}
+	key := uniqueKey(t)
+	a, err := env.NewPackClient("col", "alice")
+	if err != nil {
+		t.Fatal(err)
+	}
+	b, err := env.NewPackClient("col", "bob")
+	if err != nil {
+		t.Fatal(err)
+	}
+	ca := a.CreateCounter(key, nil)
+	_, _ = ca.Increase()
+	mustSync(t, a)
+	cb := b.SubscribeCounter(key, nil)
+	mustSync(t, b)
+	for round := 0; round < 6; round++ {
+		_, _ = ca.IncreaseBy(10)
+		_, _ = cb.IncreaseBy(100)
+		var wg sync.WaitGroup
+		for _, p := range []*PackClient{a, b} {
+			wg.Add(1)
+			go func(p *PackClient) {
+				defer wg.Done()
+				resp, rpcErr, timedOut, applyErr := p.Sync(deadline)
+				if rpcErr != nil || timedOut || applyErr != nil {
+					t.Errorf("sync: %v %v %v", rpcErr, timedOut, applyErr)
+					return
+				}
+				for _, pack := range resp.PushPullPacks {
+					if pack.GetPushPullPackOption().HasErrorBit() {
+						t.Errorf("error pack %s", pack.ToString(true))
+					}
+				}
+			}(p)
+		}
+		wg.Wait()
+	}
+	mustSync(t, a)
+	mustSync(t, b)
+	if ca.Get() != 661 || cb.Get() != 661 {
+		t.Fatalf("A=%d B=%d want 661", ca.Get(), cb.Get())
+	}
+	if !env.WaitBackground(deadline) {
+		t.Fatalf("background work did not finish")
+	}
+	// both processes published notifications and took the Redis lock
+	conns := map[int]bool{}
+	for _, c := range env.Redis.CommandLog() {
+		conns[c.ConnID] = true
+	}
+	if len(conns) < 2 {
+		t.Fatalf("only %d Redis connection(s) were used: the child process did not lock", len(conns))
+	}
+	if k := env.Redis.Keys(); len(k) != 0 {
+		t.Fatalf("locks left in redis: %v", k)
+	}
+	// QoS 0: a publish can reach the broker a little after the publisher has moved on
+	n := 0
+	for dl := time.Now().Add(3 * time.Second); time.Now().Before(dl); time.Sleep(time.Millisecond) {
+		if n = len(env.MQTT.Publishes()); n >= 13 {
+			break
+		}
+	}
+	if n != 13 {
+		t.Fatalf("publishes: %d want 13 (one per pushing sync)", n)
 	}
 }
